@@ -10,6 +10,9 @@
 -/
 import PyroModel.Wire
 import Driver.Util
+import PyroModel.PyIR
+import PyroModel.Gen.C06
+import PyroModel.C06AstRun
 
 open Pyro Pyro.Wire Driver
 
@@ -59,6 +62,22 @@ def step : List String → String
         let z : Zlib := { compress := fun p => p,
                           decompress := fun d => if d = zin then zr else some [0x7a, 0x3f] }
         let r := recvStub { compression := false, maxSize := max } z accepted stream
+        -- the transcription of today's add_payload, run by the PyIR interpreter on the same header and body
+        -- (PyroProps/C06Ast.lean proves it equals the model; a difference shows as " IR!" and is a disagreement)
+        let irTag : String :=
+          if stream.length < 40 then "" else
+          match parseHeader { compression := false, maxSize := max } (stream.take 40) with
+          | .error _ => ""
+          | .ok hdr =>
+            if !accepted.isEmpty && !accepted.contains hdr.type then "" else
+            match recvN (hdr.annSize + hdr.dataSize) (stream.drop 40) with
+            | none => ""
+            | some (body, _) =>
+              let cfgIR : Pyro.PyIR.Cfg := { useWaitall := false, peercert := false, blocking := true,
+                                             isSub := fun a b => decide (a = b), unzip := z.decompress }
+              let ir := Pyro.C06AstRun.toDecoded hdr (Pyro.C06AstRun.runAddPayload cfgIR Pyro.Gen.C06.addPayloadSrc hdr body)
+              if Pyro.C06AstRun.sameOutcome ir (addPayload z hdr body) then "" else " IR!"
+        (fun (t : String) => t ++ irTag) <|
         match r.out with
         | .ok d =>
           s!"ok {d.type} {d.serId} {d.flags} {d.seq} {bytesToHex d.data} {bytesToHex d.corr} {d.anns.length} " ++
